@@ -4,6 +4,34 @@ import Model.GSortText
 import Lemmas.GoLoop
 import Properties.C07Tie
 import Properties.C08
+/-!
+# C08, tie A by translation: the generator's own functions and template
+
+`Properties/C08.lean` proves the property about a hand-written model of gsort/gen
+(`Model/GSort.lean`).  Here the model is tied to what /repo says NOW: on every run
+`harness/cmd/go2lean -spec gsort` re-translates from gsort/gen/sorter_desc.go the functions
+`CompareLine.String`, `CompareLine.HasNest`, `SorterDesc.PriorityTree` (the chain is built through
+pointers: cells of a heap, `Model/GoHeap.lean`), `SortFieldDescs.Validate` (through the translated
+`set.Make` / `Set.Add`), `sfdFromLine`, `SorterDesc.SortTypeName` / `UsePointer`, and from the generated
+sorter_desc.gsort.go the `Less` that `sort.Sort(sd.Fields)` compares with; `-spec gsorttmpl` extracts the
+`Less` part of gsort.gotmpl and the `PriorityBlock` template it calls as a term of `TmplAst.Node`.
+
+Obligations (all for EVERY input):
+
+* `go_compareLine_string_eq`, `go_hasNest_eq`;
+* `go_priorityTree_chain` (any field list, any `sort.Sort`): the cells at addresses 0, 1, … are the
+  model's `chainOf` over the fields as sorted; `go_priorityTree_eq`: with `sort.Sort` keeping its
+  contract (`SortContract`: a rearrangement after which the translated generated `Less` never puts
+  a later element before an earlier one) and pairwise distinct priorities this is the model's
+  `priorityTree` (which uses a merge sort): `contract_sort_eq`;
+* `go_validate_eq`, `go_sfdFromLine_eq`, `go_sortTypeName_eq`, `go_usePointer_eq`;
+* `go_render_eq_genChain`: executing the extracted template with the translated methods bound to
+  their names (`goData`) writes exactly `Cmp.text` (Model/GSortText.lean) of the model's chain;
+* `go_less_eq_lex`: the headline of C08 for the translated functions and the extracted template.
+
+Not translated (stay tied by behaviour only): `createSorterDesc`'s grouping per sorter name and
+`sortFieldDescFromTag`'s loop over the tags of one field; `Generate.Parse/Write` and gofmt.
+-/
 set_option linter.unusedSimpArgs false
 namespace C08Tie
 open GSort
@@ -271,6 +299,89 @@ theorem go_validate_eq (s : List GSFD) :
     · intro fd st
       simp only [C07Tie.go_add_eq, pure_bind, SetM.add, List.foldl_cons, List.foldl_nil, SetM.addStep, valStep]
       by_cases hm : fd.Priority ∈ SetM.elems st <;> simp [hm]
+
+/-! ### `sfdFromLine`, `SortTypeName`, `UsePointer` -/
+
+/-- what the parameters of the translation have to do for the model's `splitComma`, `atoi`,
+`startsWith` / `drop` to be their mirror -/
+structure EnvAgrees (env : GEnv) : Prop where
+  split : ∀ s, env.split s "," = splitComma s
+  atoi_ok : ∀ s n, GSort.atoi s = some n → env.atoi s = (n, none)
+  atoi_err : ∀ s, GSort.atoi s = none → (env.atoi s).2 ≠ none
+  hasPrefix : ∀ s, env.hasPrefix s "*" = s.startsWith "*"
+  trimPrefix : ∀ s, env.trimPrefix s "*" = if s.startsWith "*" then (s.drop 1).toString else s
+
+theorem splitCommaAux_ne_nil (cur cs : List Char) : splitCommaAux cur cs ≠ [] := by
+  induction cs generalizing cur with
+  | nil => simp [splitCommaAux]
+  | cons c cs ih =>
+    unfold splitCommaAux
+    split
+    · simp
+    · exact ih _
+
+/-- the message of a Go `error` for the model's error class (`priorityNotInt` quotes the option) -/
+def errText (e : GenErr) (options : String) : String :=
+  match e with
+  | .priorityNotInt => GenErr.text e ++ (splitComma options).getD 1 ""
+  | _ => GenErr.text e
+
+/-- **`sfdFromLine` = the model's**: the same three tag parts or the same error; `FieldName` and
+`FieldType` are still empty (the caller, `sortFieldDescFromTag`, fills them in - the model does both
+at once from its `Field` argument). -/
+theorem go_sfdFromLine_eq (env : GEnv) (h : EnvAgrees env) (f : Field) (options : String) :
+    Generated.GoGSort.sfdFromLine env options = pure (match GSort.sfdFromLine f options with
+      | .ok d => (some ⟨"", "", d.accessor, d.sorter, d.priority⟩, none)
+      | .error e => (none, some (errText e options))) := by
+  unfold Generated.GoGSort.sfdFromLine GSort.sfdFromLine errText
+  simp only [h.split]
+  have hne := splitCommaAux_ne_nil [] options.toList
+  unfold splitComma
+  generalize splitCommaAux [] options.toList = tuple at hne
+  match tuple, hne with
+  | [a], _ =>
+    simp [Go.listGet, Generated.GoGSort.SortFieldDesc.zero]
+  | [a, p], _ =>
+    cases hp : GSort.atoi p with
+    | some n =>
+      simp [Go.listGet, Generated.GoGSort.SortFieldDesc.zero, h.atoi_ok p n hp, hp]
+    | none =>
+      have := h.atoi_err p hp
+      simp [Go.listGet, Generated.GoGSort.SortFieldDesc.zero, this, hp, GenErr.text]
+  | [a, p, c], _ =>
+    cases hp : GSort.atoi p with
+    | some n =>
+      simp [Go.listGet, Generated.GoGSort.SortFieldDesc.zero, h.atoi_ok p n hp, hp]
+    | none =>
+      have := h.atoi_err p hp
+      simp [Go.listGet, Generated.GoGSort.SortFieldDesc.zero, this, hp, GenErr.text]
+  | a :: p :: c :: d :: rest, _ =>
+    have h1 : ¬ ((rest.length : Int) + 1 + 1 + 1 + 1 < 1) := by omega
+    have h2 : (3 : Int) < (rest.length : Int) + 1 + 1 + 1 + 1 := by omega
+    simp [GenErr.text, h1, h2]
+
+theorem go_usePointer_eq (env : GEnv) (h : EnvAgrees env) (sd : Generated.GoGSort.SorterDesc) (c : Cmp) :
+    Generated.GoGSort.SorterDesc.UsePointer env sd = pure (Sorter.usePointer ⟨sd.sortTypeName, c⟩) := by
+  simp [Generated.GoGSort.SorterDesc.UsePointer, Sorter.usePointer, h.hasPrefix]
+
+theorem go_sortTypeName_eq (env : GEnv) (h : EnvAgrees env) (sd : Generated.GoGSort.SorterDesc) (c : Cmp) :
+    Generated.GoGSort.SorterDesc.SortTypeName env sd = pure (Sorter.typeName ⟨sd.sortTypeName, c⟩) := by
+  simp [Generated.GoGSort.SorterDesc.SortTypeName, Sorter.typeName, h.trimPrefix]
+
+/-- the hypotheses are satisfiable: the model's own functions -/
+def envModel : GEnv where
+  sortSort := sortModel
+  split := fun s _ => splitComma s
+  atoi := fun s => match GSort.atoi s with | some n => (n, none) | none => (0, some "invalid syntax")
+  hasPrefix := fun s _ => s.startsWith "*"
+  trimPrefix := fun s _ => if s.startsWith "*" then (s.drop 1).toString else s
+
+theorem envModel_agrees : EnvAgrees envModel where
+  split := fun _ => rfl
+  atoi_ok := by intro s n h; simp [envModel, h]
+  atoi_err := by intro s h; simp [envModel, h]
+  hasPrefix := fun _ => rfl
+  trimPrefix := fun _ => rfl
 
 /-! ### the template: `PriorityBlock` and the body of `Less`, as extracted from gsort.gotmpl -/
 
